@@ -17,9 +17,8 @@
 (*   RepeatSaveViol  C02  consecutive saves of one live model              *)
 (*   UnknownViol     C03  opaque blocks survive untouched                  *)
 (***************************************************************************)
-EXTENDS Integers, Sequences, FiniteSets, SequencesExt
+EXTENDS NifGraph
 
-V(cond, name) == IF cond THEN {} ELSE {name}
 MaxOf(S) == IF S = {} THEN 0 ELSE CHOOSE x \in S : \A y \in S : x >= y
 SumSeq(q) == FoldLeft(LAMBDA a, b : a + b, 0, q)
 
@@ -83,4 +82,22 @@ UnknownViol(f, g, U) ==
          \cup V(\A k \in 1..Len(f.blocks) : f.blocks[k].type \in U =>
                     (g.blocks[k].size = f.blocks[k].size /\ g.blocks[k].cid = f.blocks[k].cid), "OpaquePayloadUntouched")
          \cup V(IsPrefixSeq(f.strings, g.strings), "ExistingStringIndicesKeepTheirStrings")
+
+(* ---------------- C05: every serialised reference is enumerated by its owner ---------------- *)
+\* One record per populated instance of a block type.  Serialised references / string references and the results of the
+\* enumerators are sets of object ordinals (identity = address inside the block); the dynamic leg writes the block again
+\* after DeleteBlock(d), SetBlockOrder(p) and a rebuild of the string table and compares the written fields with what
+\* the graph model predicts for them.
+SeqSet(q) == {q[k] : k \in 1..Len(q)}
+NonEmpty(q) == SelectSeq(q, LAMBDA x : x # NPOS)
+EnumViol(ev) ==
+    V(SeqSet(ev.readRefs) \subseteq SeqSet(ev.enumRefs) \cup SeqSet(ev.enumPtrs), "ReadRefsEnumerated")
+    \cup V(SeqSet(ev.writeRefs) \subseteq SeqSet(ev.enumRefsW) \cup SeqSet(ev.enumPtrsW), "WrittenRefsEnumerated")
+    \cup V(~ev.stringTable \/ SeqSet(ev.readStrs) \subseteq SeqSet(ev.enumStrs), "ReadStringRefsEnumerated")
+    \cup V(~ev.stringTable \/ SeqSet(ev.writeStrs) \subseteq SeqSet(ev.enumStrsW), "WrittenStringRefsEnumerated")
+    \cup V(Bag(ev.childIndices) = Bag(ev.childRefValues), "ChildIndicesMatchChildRefs")
+    \* reference arrays drop emptied entries when written (by design), so empty fields are left out on both sides
+    \cup V(NonEmpty(ev.afterDelete) = NonEmpty([k \in 1..Len(ev.before) |-> ShiftRef(ev.before[k], ev.deleted)]), "NoStaleIndexAfterDelete")
+    \cup V(NonEmpty(ev.afterOrder) = NonEmpty([k \in 1..Len(ev.before) |-> MapRef(ev.before[k], ev.order)]), "NoStaleIndexAfterReorder")
+    \cup V(~ev.stringTable \/ ev.stringsAfterRebuild = ev.stringsBefore, "NoStaleStringIndexAfterRebuild")
 =============================================================================
